@@ -288,6 +288,12 @@ func corrC09(r *Run) {
 		cx.known[d.dc] = ks
 	}
 
+	// ---- 0. histories on the package-level coding objects (first: they are the reproducible input when the objects keep
+	// state between calls), and a second generation of the tables with pokes between the calls (background)
+	waitTables := tablePerturbTest(r, "detect", "charsets")
+	defer waitTables()
+	codecHistoryTests(r, "C09", r.N(90, 1500), r.N(14, 100))
+
 	// ---- 1. exhaustive: every scalar value as a one-character text
 	for _, det := range []struct {
 		op string
